@@ -350,7 +350,7 @@ def gen_model(rnd, lay=None, small=False):
 # query generator
 # ------------------------------------------------------------------------------------------------------
 QCLASSES = [('node', 12), ('edge', 10), ('interior', 24), ('dyadic', 4), ('ring', 7), ('second-ring', 10), ('probe', 14),
-            ('corner-probe', 4), ('on-edge', 5), ('outside', 7), ('near-node', 3)]
+            ('corner-probe', 4), ('on-edge', 5), ('outside', 7), ('near-node', 3), ('near-zero-value', 5)]
 _QC = [c for c, w in QCLASSES for _ in range(w)]
 
 
@@ -402,6 +402,32 @@ def gen_query(rnd, model, cls=None):
             fi, fj = (rnd.randint(1, nr - 3) if nr >= 4 else 0) + _rfrac(rnd, 0.001, 0.999), cj + _rfrac(rnd, 0.001, 0.999)
         else:
             fi, fj = ri + _rfrac(rnd, 0.001, 0.999), cj + _rfrac(rnd, 0.001, 0.999)
+    elif cls == 'near-zero-value':
+        # a position at which one of the four fields is tiny but not zero (1e-7 .. 1e-5 of its unit): on the field's zero
+        # contour, which runs through ordinary cell interiors.  Solved from the polynomial: A j^2 + B j + C = v0 on a row.
+        fi = fj = None
+        for _ in range(30):
+            fld = rnd.choice(sg['fields'])
+            k_, sc = fld['k'], float(1 << fld['s'])
+            i0 = rnd.uniform(0.02, nr - 1.02)
+            v0 = rnd.choice([1, -1]) * 10 ** rnd.uniform(-7, -5.1)
+            A = sum(k_[a][2] * i0 ** a for a in range(3))
+            B = sum(k_[a][1] * i0 ** a for a in range(3))
+            C = sum(k_[a][0] * i0 ** a for a in range(3)) - v0 * sc
+            roots = []
+            if A:
+                disc = B * B - 4 * A * C
+                if disc >= 0:
+                    roots = [(-B + sg_ * math.sqrt(disc)) / (2 * A) for sg_ in (1, -1)]
+            elif B:
+                roots = [-C / B]
+            roots = [x for x in roots if 0.02 < x < nc - 1.02]
+            if roots:
+                fi, fj = Fraction(i0), Fraction(rnd.choice(roots))
+                break
+        if fi is None:
+            fi, fj = _rfrac(rnd, 0, nr - 1), _rfrac(rnd, 0, nc - 1)
+            cls = 'interior'
     elif cls == 'near-node':
         fi = rnd.randint(0, nr - 2) + Fraction(rnd.choice([1, 3, 10, 1000]), 10 ** 7) * rnd.choice([1, -1])
         fj = rnd.randint(0, nc - 2) + Fraction(rnd.choice([1, 3, 10, 1000]), 10 ** 7) * rnd.choice([1, -1])
